@@ -37,6 +37,8 @@ fn main() {
         "C25" => props::c25::run(&mut ctx),
         "C29" => props::c29::run(&mut ctx),
         "C30" => props::c30::run(&mut ctx),
+        "C31" => props::c31::run(&mut ctx),
+        "C32" => props::c32::run(&mut ctx),
         "C34" => props::c34::run(&mut ctx),
         "C36" => props::c36::run(&mut ctx),
         "C37" => props::c37::run(&mut ctx),
